@@ -117,15 +117,21 @@ def shared_ir_case(r):
     doc = "\n    ".join(["%s" % irgen.rand_doc(r), ""] + [":param %s: %s" % (nm, irgen.rand_doc(r, stop=False)) for nm in names]
                         + ([":return: %s" % irgen.rand_doc(r, stop=False)] if ret and r.random() < 0.7 else []))
     src = 'def run(%s):\n    """\n    %s\n    """\n%s%s' % (sig, doc, body, ret or ("" if body else "    pass\n"))
-    ir = cdd.function.parse.function(ast.parse(src).body[0])
-    ir["name"] = ir.get("name") or "run"
-    first, then = r.choice(SHARED_FIRST), r.choice(SHARED_THEN)
-    if HISTORY[0] in ("twice", "interleaved"):
-        try:
-            _shared_emit(ir, first)
-        except Exception:
-            pass
-    return "%s after %s\n%s" % (then, first, _shared_emit(ir, then))
+    out = []
+    for first in SHARED_FIRST:  # every ordered pair of emitters, each on a freshly parsed description
+        for then in SHARED_THEN:
+            ir = cdd.function.parse.function(ast.parse(src).body[0])
+            ir["name"] = ir.get("name") or "run"
+            if HISTORY[0] in ("twice", "interleaved"):
+                try:
+                    _shared_emit(ir, first)
+                except Exception:
+                    pass
+            try:
+                out.append("%s after %s\n%s" % (then, first, _shared_emit(ir, then)))
+            except Exception as e:
+                out.append("%s after %s raised %s" % (then, first, type(e).__name__))
+    return "\n".join(out)
 
 
 def run_case(kind, r, tmp):
